@@ -119,6 +119,7 @@ func openStore(dir string, max int) (blobserver.Storage, error) {
 type probeObs struct {
 	setAfterBytes, setBeforeBytes         int
 	commitAfterRewrite, commitBeforeWrite int
+	onCommit                              func() // called on entry to CommitBatch
 }
 
 var probe probeObs
@@ -150,6 +151,9 @@ func (p *probeKV) Set(k, v string) error {
 func (p *probeKV) BeginBatch() sorted.BatchMutation { return &probeBatch{BatchMutation: p.KeyValue.BeginBatch()} }
 
 func (p *probeKV) CommitBatch(b sorted.BatchMutation) error {
+	if probe.onCommit != nil {
+		probe.onCommit()
+	}
 	pb, ok := b.(*probeBatch)
 	if !ok {
 		return p.KeyValue.CommitBatch(b)
@@ -215,6 +219,92 @@ func (s *dpState) session(f func(sto blobserver.Storage)) error {
 		f(sto)
 	}()
 	return s.readBack(dir)
+}
+
+// photo is the content of the pack files at one instant of a removal ("the process dies here").
+type photo struct {
+	label string
+	packs [][]byte
+}
+
+func readPacks(dir string) [][]byte {
+	var out [][]byte
+	for i := 0; ; i++ {
+		b, err := os.ReadFile(packName(dir, i))
+		if err != nil {
+			return out
+		}
+		out = append(out, b)
+	}
+}
+
+// removePhotographed runs RemoveBlobs([ref]) on the real store and photographs the pack files at the REAL
+// boundaries of its writes: on entry to the body reclaim (delete's punchHole call), after it, and when
+// the row deletions are about to be committed.  mode: "punch" = the real hole punch; "fill" = the hook
+// declines (errNoPunch) so that delete's own zero-fill runs; "half" = the hook zeroes the first half of
+// the range as an interrupted zero-fill would have, photographs, then declines.
+func (s *dpState) removePhotographed(ref blob.Ref, mode string) (photos []photo, err error) {
+	dir, err := s.materialise(true)
+	if dir != "" {
+		defer os.RemoveAll(dir)
+	}
+	if err != nil {
+		return nil, err
+	}
+	sto, err := openStore(dir, s.max)
+	if err != nil {
+		return nil, err
+	}
+	snap := func(label string) { photos = append(photos, photo{label, readPacks(dir)}) }
+	var orig func(*os.File, int64, int64) error
+	hook := func(f *os.File, off, size int64) error {
+		snap("reclaim-entry")
+		zero := func(n int64) error {
+			if fi, err := f.Stat(); err == nil && off+n > fi.Size() {
+				n = fi.Size() - off
+			}
+			if n <= 0 {
+				return nil
+			}
+			_, err := f.WriteAt(make([]byte, n), off)
+			return err
+		}
+		switch mode {
+		case "fill":
+			return diskpacked.VerifErrNoPunch
+		case "half":
+			if err := zero(size / 2); err != nil {
+				return err
+			}
+			snap("reclaim-half")
+			return diskpacked.VerifErrNoPunch
+		}
+		var err error
+		if orig != nil {
+			err = orig(f, off, size)
+		} else {
+			err = diskpacked.VerifErrNoPunch
+		}
+		if errors.Is(err, diskpacked.VerifErrNoPunch) {
+			err = zero(size) // no hole punching on this file system: same effect on the bytes
+		}
+		if err == nil {
+			snap("reclaim-exit")
+		}
+		return err
+	}
+	orig = diskpacked.VerifSetPunchHole(hook)
+	probe.onCommit = func() { snap("commit-entry") }
+	func() {
+		defer sto.(io.Closer).Close()
+		defer func() { diskpacked.VerifSetPunchHole(orig); probe.onCommit = nil }()
+		_ = sto.RemoveBlobs(context.Background(), []blob.Ref{ref})
+	}()
+	if err := s.readBack(dir); err != nil {
+		return nil, err
+	}
+	photos = append(photos, photo{"returned", s.clone().packs})
+	return photos, nil
 }
 
 func (s *dpState) reindex(fresh bool) (ok bool, err error) {
